@@ -26,14 +26,15 @@ THEOREMS = ['Props.C10.' + t for t in [
     'add_node_preserves', 'delete_node_preserves', 'add_well_preserves', 'delete_well_preserves',
     'add_layer_preserves_structure', 'delete_layer_preserves_structure',
     'add_connection_preserves_structure', 'delete_connection_preserves_structure',
-    'add_column_preserves_structure', 'delete_column_preserves_structure']]
+    'add_column_preserves_structure', 'delete_column_preserves_structure',
+    'edit_histories_preserve_structure', 'edit_history_then_setup_names']]
 LEVEL_TEXT = ('Partial proof. Lean 4 state-machine model of mulgrid (heap of nodes/columns/connections/layers/wells with explicit ids and '
               'hand-maintained back-references; add_/delete_ node/column/connection/layer/well, split_column, rename_column/layer, '
               'subdivide/triangulate/decompose_column(s), refine incl. the boundary walker and bisection, refine_layers, reduce, check(fix), '
               'snap_*, copy_layers_from, translate, rotate) and the C10 invariant GeoInv as executable predicates. Proved (no sorry): the '
               'name lists are fresh after every operation that recomputes them (11 theorems); translate and rotate (any angle, any centre) '
-              'preserve the whole invariant; add_node / delete_node / add_well / delete_well preserve it, add_layer / delete_layer / add_connection / delete_connection / add_column / delete_column (cascade included) its structural part; '
-              'the bare add_/delete_ operations leave the name lists stale (kernel-evaluated witness). NOT '
+              'preserve the whole invariant; add_node / delete_node / add_well / delete_well preserve it, add_layer / delete_layer / add_connection / delete_connection / add_column / delete_column (cascade included) its structural part, and so does EVERY history of these edits (plus translate and setup_*) each of which is '
+              'a sensible request when applied (induction over the history); the bare add_/delete_ operations leave the name lists stale (kernel-evaluated witness). NOT '
               'proved: preservation of the back-reference clauses by split_column, rename_column/layer, subdivide/decompose, refine, reduce, check(fix), snap_*, refine_layers - these '
               'are covered by the correspondence (every state of every explored history: model state == real state up to renaming of '
               'generated names, and Lean GeoInv verdict == Python oracle verdict clause by clause) and by the oracle on the real code.')
